@@ -3,6 +3,7 @@
                                      consumed by each visit of the block/variable state, taken from the real lexer)
    X <B|U> <combo> <src> <ks>    -> OK <kind>/<value> ... | ERR   (generic scanner, regenerated rules of option combination <combo>)
    F <combo> <src>               -> OK 0|1   (marker_free)
+   P <B|U> <combo> <sv> <sb> <src> <ctx> <visits> -> OK <output> | ERR   (whole pipeline model, Gen/JinjaMini.v)
    R <src>                       -> OK <data> <name> <value> <rest> | NONE   (stock 3.1 root step)
    L <s> <prefix>                -> OK <text>                                 (do_lineprefix)
    V <token value> <rendering>   -> OK <text>      (variable_begin branch of subparse, rendered)
@@ -47,6 +48,38 @@ let () =
             (match r with
              | None -> "ERR"
              | Some toks -> String.concat " " ("OK" :: List.map (fun (k, v) -> ascii k ^ "/" ^ show v) toks))
+          | ["P"; which; idx; svs; sbs; src; ctx; visits] ->
+            (* the whole pipeline model (Gen/JinjaMini.v): which = B (bundled rules + the marker decision of the code in /repo),
+               L / A (bundled rules + legacy / delimiter-aware marker decision), U (upstream: no marker alternatives, never a marker);
+               svs/sbs: start strings for variable / block tokens (comma separated, '-' none); ctx: name~I<n> | name~S<str> | name~L<n.n.n>;
+               visits: for every block/variable/line-statement state visit  k|kind/value,kind/value,...  separated by ';' *)
+            let strs t = if t = "-" then [] else List.map parse (String.split_on_char ',' t) in
+            let cv t = match String.index_opt t '~' with
+              | None -> failwith "ctx"
+              | Some i ->
+                let name = parse (String.sub t 0 i) and tag = t.[i + 1] and rest = String.sub t (i + 2) (String.length t - i - 2) in
+                (name, (match tag with
+                    | 'I' -> VInt (n_of_int (int_of_string rest))
+                    | 'S' -> VStr (parse rest)
+                    | 'L' -> VList (if rest = "e" then [] else List.map (fun x -> n_of_int (int_of_string x)) (String.split_on_char '.' rest))
+                    | _ -> VUndef)) in
+            let c = if ctx = "-" then [] else List.map cv (String.split_on_char ',' ctx) in
+            let visit t = match String.split_on_char '|' t with
+              | [k; toks] ->
+                (nat_of_int (int_of_string k),
+                 if toks = "" then [] else List.map (fun kv -> match String.split_on_char '/' kv with
+                     | [kd; v] -> (parse kd, parse v) | _ -> failwith "tok") (String.split_on_char ',' toks))
+              | _ -> failwith "visit" in
+            let q = ref (if visits = "-" then [] else List.map visit (String.split_on_char ';' visits)) in
+            let tags _ _ = match !q with [] -> None | (k, toks) :: r -> q := r; Some (toks, k) in
+            let i = nat_of_int (int_of_string idx) in
+            let fuel = nat_of_int 400 in
+            let sv = strs svs and sb = strs sbs in
+            let r = match which with
+              | "B" -> mini_bundled i sv sb tags fuel (parse src) c
+              | "U" -> mini_upstream i tags fuel (parse src) c
+              | _ -> failwith "which" in
+            (match r with None -> "ERR" | Some o -> "OK " ^ show o)
           | ["F"; idx; src] -> if marker_free_combo (nat_of_int (int_of_string idx)) (parse src) then "OK 1" else "OK 0"
           | ["R"; src] ->
             (match root_step31 (parse src) with
@@ -54,10 +87,10 @@ let () =
              | Some (((d, n), v), rest) -> String.concat " " ["OK"; show d; ascii n; show v; show rest])
           | ["L"; s; p] -> "OK " ^ show (do_lineprefix (parse s) (parse p))
           | ["V"; value; r] ->
-            (match render_node (fun x -> x) builtin_filters (subparse_variable (parse value) (parse r)) with
+            (match render_node (fun x -> x) builtin_filters (subparse_variable (code_marker [parse "123.123"] (parse value)) (parse r)) with
              | None -> "ERR" | Some t -> "OK " ^ show t)
           | "B" :: value :: rs ->
-            (match render_all (fun x -> x) (subparse_block (parse value) (List.map parse rs)) with
+            (match render_all (fun x -> x) (subparse_block (code_marker [parse "123.37"] (parse value)) (List.map parse rs)) with
              | None -> "ERR" | Some t -> "OK " ^ show t)
           | ["M"; src] -> if has_marker (parse src) then "OK 1" else "OK 0"
           | "I" :: els :: first :: rest ->
